@@ -30,9 +30,9 @@ VARIABLES cap,
           handed, conn, engConn, onBehalf, willOk,              \* C04
           obsOf, obsIdx, obsRetAt, obsSt, nObs, dataTag, dataPend, dataPre, \* C02 registration state
           stage, seen, mustObs, annAtClose,                     \* C02 per-session close progress
-          lifeCalled, tdAt
+          lifeCalled, tdAt, tdUj
 vars == <<l, cap, arrived, arrDone, disab, cur, closedAt, ovfSeen, maxBacklog, pendRecv, pendFlush, handed, conn, engConn, onBehalf,
-          willOk, obsOf, obsIdx, obsRetAt, obsSt, nObs, dataTag, dataPend, dataPre, stage, seen, mustObs, annAtClose, lifeCalled, tdAt>>
+          willOk, obsOf, obsIdx, obsRetAt, obsSt, nObs, dataTag, dataPend, dataPre, stage, seen, mustObs, annAtClose, lifeCalled, tdAt, tdUj>>
 
 FS(v) == [s \in Sess |-> v]
 NoConn == [st |-> "idle", to |-> 0, vt |-> 0, sid |-> -1]
@@ -43,7 +43,7 @@ Canon(c) == /\ cap' = c
             /\ obsOf' = [g \in Tags |-> -1] /\ obsIdx' = [g \in Tags |-> 0] /\ obsRetAt' = [g \in Tags |-> 0] /\ obsSt' = [g \in Tags |-> "none"] /\ nObs' = 0
             /\ dataTag' = FS("-") /\ dataPend' = FS({}) /\ dataPre' = FS(FALSE)
             /\ stage' = FS("none") /\ seen' = FS(<<>>) /\ mustObs' = FS({}) /\ annAtClose' = FS(FALSE)
-            /\ lifeCalled' = FALSE /\ tdAt' = -1
+            /\ lifeCalled' = FALSE /\ tdAt' = -1 /\ tdUj' = 0
 Init == /\ l = 1 /\ cap = 0
         /\ arrived = FS(0) /\ arrDone = FS(0) /\ disab = FS({}) /\ cur = FS(0) /\ closedAt = FS(-1) /\ ovfSeen = FS(FALSE) /\ maxBacklog = FS(0)
         /\ pendRecv = {} /\ pendFlush = {}
@@ -51,19 +51,31 @@ Init == /\ l = 1 /\ cap = 0
         /\ obsOf = [g \in Tags |-> -1] /\ obsIdx = [g \in Tags |-> 0] /\ obsRetAt = [g \in Tags |-> 0] /\ obsSt = [g \in Tags |-> "none"] /\ nObs = 0
         /\ dataTag = FS("-") /\ dataPend = FS({}) /\ dataPre = FS(FALSE)
         /\ stage = FS("none") /\ seen = FS(<<>>) /\ mustObs = FS({}) /\ annAtClose = FS(FALSE)
-        /\ lifeCalled = FALSE /\ tdAt = -1
+        /\ lifeCalled = FALSE /\ tdAt = -1 /\ tdUj = 0
 EvReset == IsEv("Reset") /\ Canon(0)
 EvBegin == IsEv("Begin") /\ Canon(Ev.cap)
 
 C03U == UNCHANGED <<arrived, arrDone, disab, cur, closedAt, ovfSeen, maxBacklog, pendRecv, pendFlush>>
 C04U == UNCHANGED <<handed, conn, engConn, onBehalf, willOk>>
 C02U == UNCHANGED <<obsOf, obsIdx, obsRetAt, obsSt, nObs, dataTag, dataPend, dataPre, stage, seen, mustObs, annAtClose>>
-Keep == UNCHANGED <<cap, lifeCalled, tdAt>>
+Keep == UNCHANGED <<cap, lifeCalled, tdAt, tdUj>>
 \* a call that was blocked or in flight when destruction began returns within this much (virtual) time of its beginning
 \* (judged on the call's own deadline, which no other thread's time-out can move: once destruction has begun, a call may
 \* end with Timeout only if its deadline lay within TdBound of that moment anyway - it must be released by the teardown)
+\* Both rules read VIRTUAL time, which the harness moves only when a time-out or sleep is granted.  When the schedule grants
+\* one while another thread could still run (or ahead of an earlier deadline) - an "unfair jump", counted by the scheduler
+\* and logged as uj - the clock reading no longer bounds how long the teardown took, so an interval containing one is not
+\* judged (the harness's fair schedules - time-outs only when nothing else can run, earliest deadline first - are).
 TdBound == 3000
-TimeoutOk(callVt, to) == tdAt >= 0 => callVt + to <= tdAt + TdBound
+Uj == IF "uj" \in DOMAIN Ev THEN Ev.uj ELSE 0
+FairSinceTd == tdAt >= 0 /\ Uj = tdUj
+TimeoutOk(callVt, to) == FairSinceTd => callVt + to <= tdAt + TdBound
+\* ... and whatever its result, it returns within TdBound of virtual time - unless virtual time was moved by the deadline of
+\* some OTHER call still pending (then the reading says nothing about this call)
+OtherDeadlineIn(me, lo, hi) ==
+    \/ \E r \in pendRecv : r # me /\ r[5] + r[4] > lo /\ r[5] + r[4] <= hi
+    \/ \E t \in Thr : conn[t].st = "called" /\ <<t>> # me /\ conn[t].vt + conn[t].to > lo /\ conn[t].vt + conn[t].to <= hi
+ReleasedInTime(me, vt) == (FairSinceTd /\ vt - tdAt > TdBound) => OtherDeadlineIn(me, tdAt, vt)
 
 \* ---- C03 --------------------------------------------------------------------------------------------
 Max2(a, b) == IF a > b THEN a ELSE b
@@ -94,6 +106,7 @@ EvRecvCall == /\ IsEv("RecvCall") /\ pendRecv' = pendRecv \cup {<<Ev.t, Ev.s, Ev
 MyRecv == CHOOSE r \in pendRecv : r[1] = Ev.t /\ r[2] = Ev.s
 EvRecvRet ==
     /\ IsEv("RecvRet") /\ \E r \in pendRecv : r[1] = Ev.t /\ r[2] = Ev.s
+    /\ ReleasedInTime(MyRecv, Ev.vt)
     /\ pendRecv' = pendRecv \ {MyRecv}
     /\ LET s == Ev.s IN
        CASE Ev.res = "ok" ->
@@ -147,7 +160,7 @@ EvEngClose == /\ IsEv("EngClose")
               /\ onBehalf' = IF conn[Ev.by].st = "called" /\ conn[Ev.by].sid = Ev.s THEN onBehalf \cup {Ev.s} ELSE onBehalf
               /\ UNCHANGED <<handed, conn, engConn, willOk>> /\ C03U /\ C02U /\ Keep
 EvConnRet ==
-    /\ IsEv("ConnRet") /\ conn[Ev.t].st = "called"
+    /\ IsEv("ConnRet") /\ conn[Ev.t].st = "called" /\ ReleasedInTime(<<Ev.t>>, Ev.vt)
     /\ LET c == conn[Ev.t] IN
        IF Ev.ok
        THEN /\ Ev.s = c.sid /\ Ev.s \in engConn /\ Ev.s \notin onBehalf
@@ -237,6 +250,7 @@ EvCloseRet == /\ IsEv("CloseRet") /\ stage[Ev.s] \in {"start", "global", "obs", 
 \* ---- C05 --------------------------------------------------------------------------------------------
 EvLifeCall == /\ IsEv("LifeCall") /\ lifeCalled' = TRUE /\ UNCHANGED cap /\ C03U /\ C04U /\ C02U
               /\ tdAt' = IF Ev.op \in {"destroy", "destroy_in_cb"} /\ tdAt < 0 THEN Ev.vt ELSE tdAt
+              /\ tdUj' = IF Ev.op \in {"destroy", "destroy_in_cb"} /\ tdAt < 0 THEN Uj ELSE tdUj
 EvLifeRet == IsEv("LifeRet") /\ C03U /\ C04U /\ C02U /\ Keep
 EvSendRet == IsEv("SendRet") /\ C03U /\ C04U /\ C02U /\ Keep
 EvListenRet == IsEv("ListenRet") /\ C03U /\ C04U /\ C02U /\ Keep
